@@ -49,6 +49,25 @@ fn ilv_oracle() -> Oracle {
         for f in accounting_violations(&run.obs_end) {
             out.push(Finding::new("accounting", "put:accounting-broken", f));
         }
+        // epilogue (everything acknowledged, nothing in flight): a probed put = get(k) immediately followed by put(k).
+        // Readable => rejected, entry untouched; reads as absent => never KeyAlreadyExists
+        for c in run.calls.iter().filter(|c| c.thread == PHASE_POST) {
+            if let (Op::ProbedPut { k: pk, .. }, Res::ProbedWrite { read, .. }) = (&c.op, &c.res) {
+                let st = run.status_of(PHASE_POST, c.idx);
+                if read.is_some() {
+                    if st != Some(CommandStatus::Rejected(RejectionReason::KeyAlreadyExists)) {
+                        out.push(Finding::new("put-of-readable-key-not-rejected", "put:readable-not-rejected", format!("{} on a readable key ended with {:?}", c.short(), st.map(|s| status_short(&s)))));
+                    }
+                } else if st == Some(CommandStatus::Rejected(RejectionReason::KeyAlreadyExists)) {
+                    let state = match run.obs_end.entry(*pk) {
+                        None => "absent",
+                        Some(e) if e.4 => "soft-deleted-with-no-delete-pending",
+                        Some(_) => "expired-unswept",
+                    };
+                    out.push(Finding::new("KeyAlreadyExists-for-unreadable-key", format!("put:KeyAlreadyExists-for-{}-key", state), format!("{} was rejected with KeyAlreadyExists although the key reads as absent and no command is in flight (state: {})", c.short(), state)));
+                }
+            }
+        }
     })
 }
 
@@ -69,6 +88,15 @@ fn ilv_programs() -> Vec<Program> {
     }
     v.push(mk("put_with_ttl(k);put(k)-one-thread", vec![], vec![vec![Op::Put { k: 1, w: None, ttl_ms: Some(5000) }, Op::Put { k: 1, w: None, ttl_ms: None }]]));
     v.push(mk("put(k);put_with_ttl(k)-one-thread", vec![], vec![vec![Op::Put { k: 1, w: Some(2), ttl_ms: None }, Op::Put { k: 1, w: Some(3), ttl_ms: Some(5000) }]]));
+    // a delete racing a put of the same key, then (all acknowledged) a probed put
+    for (name, init_k, racing) in [
+        ("delete(k)||put(k) ; then probed put(k)", Op::Put { k: 1, w: Some(2), ttl_ms: None }, Op::Put { k: 1, w: Some(3), ttl_ms: None }),
+        ("delete(k)||put_ttl(k) ; then probed put(k) /ttl", Op::Put { k: 1, w: Some(2), ttl_ms: Some(5000) }, Op::Put { k: 1, w: Some(3), ttl_ms: Some(5000) }),
+    ] {
+        let mut p = mk(name, vec![init_k], vec![vec![Op::Delete { k: 1 }], vec![racing]]);
+        p.post = vec![Op::ProbedPut { k: 1, w: Some(4), ttl_ms: None }];
+        v.push(p);
+    }
     v.push(mk("put_ttl(k)||put(k) on a live key", vec![put(1, 2)], vec![vec![Op::Put { k: 1, w: Some(3), ttl_ms: Some(5000) }], vec![Op::Put { k: 1, w: Some(4), ttl_ms: None }]]));
     v
 }
